@@ -1791,6 +1791,43 @@ impl<'a> Session<'a> {
                 }
                 Res::Ok
             }
+            Op::SetMintLegacy(refuse) => {
+                let mint_from = self.sc.ops.iter().enumerate().take(idx).filter(|(_, o)| matches!(o, Op::RemoveMint)).map(|(i, _)| i + 1).last().unwrap_or(0);
+                let declared = self.sc.ops.iter().enumerate().take(idx).skip(mint_from).any(|(_, o)| matches!(o, Op::Mint { wit, .. } if wit.signers.is_some() || wit.how != ScriptUse::Witness));
+                if declared || self.mint.get_plutus_witnesses().len() > 0 || self.mint.get_ref_inputs().len() > 0 {
+                    return Res::Skipped("the old setter would lose a declaration");
+                }
+                let tx0 = &self.tx;
+                #[allow(deprecated)]
+                let cur = match guard(|| Ok((tx0.get_mint(), tx0.get_mint_scripts()))) {
+                    Ok((Some(m), Some(s))) if m.len() > 0 => (m, s),
+                    _ => return Res::Skipped("no native mint to hand back"),
+                };
+                let (mint, mut scripts) = cur;
+                if *refuse {
+                    let mut fewer = csl::NativeScripts::new();
+                    for i in 1..scripts.len() {
+                        fewer.add(&scripts.get(i));
+                    }
+                    scripts = fewer;
+                }
+                let tx = &mut self.tx;
+                #[allow(deprecated)]
+                let r = guard(|| tx.set_mint(&mint, &scripts));
+                if r.is_ok() {
+                    if *refuse {
+                        return Res::Err("the old mint setter accepted a mint without one of its scripts".into());
+                    }
+                    if let Some(mb) = self.tx.get_mint_builder() {
+                        self.mint = mb;
+                        self.handed |= 8;
+                    }
+                }
+                match r {
+                    Ok(()) => Res::Ok,
+                    Err(r) => r,
+                }
+            }
             Op::SetInputsAgain => {
                 self.tx.set_inputs(&self.inb);
                 self.mark_value_change();
